@@ -143,7 +143,7 @@ FIT_RAISES = {'ValueError': May(), 'LinAlgError': May(), 'NonPSDError': May()}
 
 # ------------------------------------------------------------------------------------------------ Covariance
 def cov_cases():
-  return [Case('%s' % h, {'self': est('Covariance', {}, h), 'X': Arr(2, dims=['n', 'd']), 'y': NoneT()}) for h in ('fresh', 'refit')]
+  return [Case('%s' % h, {'self': est('Covariance', {}, h), 'X': Arr(2, dims=['n', 'd'], tt='pos'), 'y': NoneT()}) for h in ('fresh', 'refit')]
 
 
 register(Contract(
@@ -159,7 +159,7 @@ C.unit('C03', 'covariance:Covariance.fit')
 
 # ---------------------------------------------------------------------------------------------------- ITML
 def pairs_arr(name='pairs'):
-  return Arr(3, dims=['n', 2, 'd'])
+  return Arr(3, dims=['n', 2, 'd'], tt='pos')      # training points: move with a translation of the data (C19)
 
 
 PRIORS = [('identity', Str('identity')), ('covariance', Str('covariance')), ('random', Str('random')),
@@ -220,7 +220,7 @@ def lsml_fit_cases():
       for h in ('fresh', 'refit'):
         if wn == 'weights-list' and (pn != 'identity' or h == 'refit'):
           continue
-        out.append(Case('%s-%s-%s' % (pn, wn, h), {'self': est('LSML', lsml_hyper(ps), h), 'quadruplets': Arr(3, dims=['n', 4, 'd']), 'weights': ws}))
+        out.append(Case('%s-%s-%s' % (pn, wn, h), {'self': est('LSML', lsml_hyper(ps), h), 'quadruplets': Arr(3, dims=['n', 4, 'd'], tt='pos'), 'weights': ws}))
   return out
 
 
@@ -437,7 +437,7 @@ def scml_fit_cases():
       for h in ('fresh', 'refit'):
         if h == 'refit' and bn == 'array':
           continue
-        out.append(Case('%s-%s-%s' % (bn, nn, h), {'self': est('SCML', scml_hyper(bs, ns), h), 'triplets': Arr(3, dims=['n', 3, 'd']),
+        out.append(Case('%s-%s-%s' % (bn, nn, h), {'self': est('SCML', scml_hyper(bs, ns), h), 'triplets': Arr(3, dims=['n', 3, 'd'], tt='pos'),
                                                    'basis': NoneT(), 'n_basis': NoneT()},
                         pre=lambda a: a.self.output_iter <= a.self.max_iter))
   # the supervised variant hands in a ready basis (lda): (n_basis, d) with its row count
@@ -557,3 +557,17 @@ def _lmnn_zero_iterations_give_init(a, r):
 
 REGISTRY['lmnn:LMNN.fit'].ensures['zero-optimiser-iterations-return-the-initialisation'] = _lmnn_zero_iterations_give_init
 REGISTRY['lmnn:LMNN.fit'].prop.append('C10') if 'C10' not in REGISTRY['lmnn:LMNN.fit'].prop else None
+
+
+
+# ------------------------------------------------------------------------------------------- C19: translation typing
+def translation_invariant(a, r):
+  """the learned transformation types as translation invariant: every use of the training points goes through within-tuple
+  differences, covariances / pairwise distances of the points, or index bookkeeping (see npvc/ttype.py for the rules)"""
+  return z3.BoolVal(comp(a).tt == 'inv')
+
+
+for _t in ('covariance:Covariance.fit', 'itml:_BaseITML._fit', 'mmc:_BaseMMC._fit', 'sdml:_BaseSDML._fit', 'lsml:_BaseLSML._fit', 'scml:_BaseSCML._fit'):
+  REGISTRY[_t].ensures['learned-distance-is-translation-invariant'] = translation_invariant
+  if 'C19' not in REGISTRY[_t].prop:
+    REGISTRY[_t].prop.append('C19')
